@@ -171,6 +171,8 @@ def enumerate_cases(tier, scope):
                     if cls == 'C2':
                         members['m2'] = ['savable', {'cls': 'D', 'members': {'m0': ['method', 'meth_a'], 'm3': ['future', fut]}}]
                     yield {'shape': shape, 'instance': {'cls': cls, 'members': members, 'extra': {'zz': 1}}, 'loader': loader, 'load_with': load_with}
+                    if loader == 'global' and load_with == 'ctx':
+                        yield {'shape': shape, 'instance': {'cls': cls, 'members': members, 'extra': {'zz': 1}}, 'loader': loader, 'load_with': load_with, 'reset_global': True}
     # another object of the family saved and loaded first (different loader configuration, caller-owned context reused);
     # members declared by the persist() hook of a class below a non-declaring base
     hooked = _shape_chain(3, [None, ['m0', 'm1'], ['m2']])
@@ -269,6 +271,7 @@ def _cases(draw, tier):
     if draw(st.integers(0, 9)) == 0:
         case['tamper'] = draw(st.sampled_from(['pv.gen_classes:DoesNotExist', 'no-colon-here', 'nomodule.xyz:Thing', 'pv.broken_import:Thing']))
     case['ctx_extend'] = draw(st.booleans())
+    case['reset_global'] = draw(st.booleans())
     case['redefine'] = draw(st.integers(0, 3)) == 0
     case['strict'] = draw(st.booleans())
     if draw(st.integers(0, 2)) == 0:
@@ -444,6 +447,10 @@ def execute(case):
                         if hasattr(gen_classes, cname):
                             delattr(gen_classes, cname)
                     classes = make_classes(shape)
+                if case.get('reset_global') and case['loader'] == 'global' and case['load_with'] == 'ctx':
+                    # the loader that named everything at save time (it was the global one) is not global any more when the
+                    # state is loaded, but it is handed over in the load context: it is in charge of nested objects too
+                    loaders.set_object_loader(prev_global)
                 load_ctx = shared_ctx if shared_ctx is not None else persistence.LoadSaveContext(loop=loop)
                 if case['load_with'] == 'ctx' and case['loader'] != 'default':
                     load_ctx = persistence.LoadSaveContext(loop=loop, loader=custom)
@@ -478,6 +485,8 @@ def execute(case):
                     if case['loader'] != 'default' and loaders_h.TagLoader.owned_loads <= before_loads:
                         v('custom-loader-not-used', 'the class was not resolved through the custom loader')
                     if not viol:
+                        if case.get('reset_global') and case['loader'] == 'global' and case['load_with'] == 'ctx':
+                            loaders.set_object_loader(custom)  # save again under the configuration of the first save
                         try:
                             again = new.save(save_ctx)
                             diff = same(snapshot, again)
@@ -502,6 +511,8 @@ def execute(case):
         classes_out.append('tampered')
     if case.get('redefine'):
         classes_out.append('classes-redefined-before-load')
+    if case.get('reset_global') and case['loader'] == 'global' and case['load_with'] == 'ctx':
+        classes_out.append('global-loader-reset-before-load')
     if case.get('strict') and case['loader'] == 'default':
         classes_out.append('strict-loader-probe')
     if case.get('ctx_extend') and case['loader'] in ('persave', 'persave+global'):
